@@ -33,9 +33,11 @@ Proof. unfold tinv, c16_tokenizer. cbn. repeat split; discriminate. Qed.
 
 (* normalize_preserves_tokens (DESIGN C16).  Full statement, for all byte strings c:
        c16_sem c = Some ts -> c16_sem (c16_normalize c) = Some ts /\ c16_warnings c = []
-   It is FALSE on the faithful model (normalize_preserves_tokens_refuted below: finding C16-F1).  Proved: the full
-   statement minus (a) inputs containing a raw VT byte (0x0B: white space for qpdf, a regular character for ISO 32000-1,
-   findings D11 / C16-F1) and (b) inline images at which qpdf's ten-token heuristic findEI does not choose the end of
+   It is false on the faithful model for inputs OUTSIDE the property's quantifier only, as far as is known
+   (normalize_preserves_tokens_unrestricted_refuted below: image data containing "EI" followed by white space); the former
+   counterexample inside the quantifier, finding C16-F1 (EI followed by VT), is repaired and pinned by
+   normalize_ei_vt_pinned.  Proved: the full statement minus (a) inputs containing a raw VT byte (0x0B: white space for
+   qpdf's tokenizer, a regular character for ISO 32000-1, finding D11) and (b) inline images at which qpdf's ten-token heuristic findEI does not choose the end of
    data that ISO 32000-1 8.9.7 defines, or whose data are empty (c16_ei_okb, an executable test; a stream without
    inline images passes it).  For every such content stream - any operators, any operand spelling, strings with any
    bytes in any form, names with any escapes, any white space, comments, inline images with any data - the normalised
@@ -76,19 +78,34 @@ Proof.
   - unfold c16_warnings. destruct (c16_normalize_run c) as [[out any] last]. cbn [fst snd] in Ha. rewrite Ha, Hbad. reflexivity.
 Qed.
 
-(* C16-F1: inline image data containing EI<VT> followed by ten plausible tokens: the image is ended there and the rest of
-   its data is re-spelt: "(<CR>)" becomes "(\n)<LF>".  No bad token, no warning. *)
+(* C16-F1 (repaired: QPDFWordTokenFinder::check no longer accepts VT after EI).  The former counterexample - inline image
+   data containing EI<VT> followed by ten plausible tokens, "BI /W 1 ID ab EI<VT>(<CR>) cd EI Q 1 2 ... 12" - is now read
+   correctly: the image ends at its real EI, the stream is written back byte for byte, it reads as before, no warning. *)
 Definition c16_witness_ei_vt : list N :=
   [66;73;32;47;87;32;49;32;73;68;32;97;98;32;69;73;11;40;13;41;32;99;100;32;69;73;32;81;32;49;32;50;32;51;32;52;32;53;32;54;32;55;32;56;32;57;32;49;48;32;49;49;32;49;50;10].
 
-Lemma normalize_preserves_tokens_refuted_lemma :
-  exists c ts, Forall (fun b => b < 256) c /\ c16_sem c = Some ts /\
-               c16_sem (c16_normalize c) <> Some ts /\ c16_warnings c = [].
+Lemma normalize_ei_vt_pinned_lemma :
+  c16_normalize c16_witness_ei_vt = c16_witness_ei_vt /\
+  c16_sem (c16_normalize c16_witness_ei_vt) = c16_sem c16_witness_ei_vt /\ c16_sem c16_witness_ei_vt <> None /\
+  c16_sem_images (match c16_sem c16_witness_ei_vt with Some l => l | None => [] end) = [[97;98;32;69;73;11;40;13;41;32;99;100;32]] /\
+  c16_warnings c16_witness_ei_vt = [].
+Proof. repeat split; try (vm_compute; reflexivity). vm_compute. discriminate. Qed.
+
+(* The statement without any restriction on inline images stays false, for inputs outside the property's quantifier: image
+   data that contain "EI" followed by white space (here "abEI ", not preceded by white space, so not an end marker for the
+   specification) and after which ten plausible tokens follow are ended there by findEI, and the rest of the data is
+   re-spelt.  The property excludes such payloads ("not 'EI' followed by white space or a delimiter"). *)
+Definition c16_witness_ei_ws : list N :=
+  [66;73;32;47;87;32;49;32;73;68;32;97;98;69;73;32;40;13;41;32;99;100;32;69;73;32;81;32;49;32;50;32;51;32;52;32;53;32;54;32;55;32;56;32;57;32;49;48;32;49;49;32;49;50;10].
+
+Lemma normalize_preserves_tokens_unrestricted_refuted_lemma :
+  exists c ts, Forall (fun b => b < 256) c /\ ~ In 11 c /\ c16_sem c = Some ts /\
+               c16_sem (c16_normalize c) <> Some ts /\ c16_warnings c = [] /\ c16_ei_okb c = false.
 Proof.
-  exists c16_witness_ei_vt. eexists. split; [|split; [vm_compute; reflexivity|split]].
+  exists c16_witness_ei_ws. eexists. split; [|split; [|split; [vm_compute; reflexivity|split; [vm_compute; discriminate|split; vm_compute; reflexivity]]]].
   - apply Forall_forall. intros x Hx. apply N.ltb_lt. revert x Hx. apply forallb_forall. vm_compute. reflexivity.
-  - vm_compute. discriminate.
-  - vm_compute. reflexivity.
+  - intros H. assert (X : forallb (fun b => negb (b =? 11)) c16_witness_ei_ws = true) by (vm_compute; reflexivity).
+    rewrite forallb_forall in X. specialize (X 11 H). discriminate.
 Qed.
 
 (* ---- bad tokens are reported ---- *)
@@ -138,20 +155,32 @@ Qed.
 Lemma bad_token_verbatim_lemma : forall tok, tok_type tok = TT_bad -> c16_emit tok = tok_raw tok.
 Proof. intros tok H. unfold c16_emit. rewrite H. reflexivity. Qed.
 
-(* C16-F6: the hypothesis c16_ei_okb is a real restriction.  The operator d0 among the ten tokens after an inline image
-   makes findEI reject the image's EI; with a later EI in the stream the inline-image token a filter sees runs to that one.
-   Witness: "BI /W 1 ID a EI Q 0 0 d0 BI /W 1 ID b EI Q" - one readable stream, no VT, two images for the specification,
-   one image token (swallowing the operators in between) for qpdf. *)
+(* C16-F6 (repaired: findEI's plausibility test accepts the operators d0 and d1).  The former witness
+   "BI /W 1 ID a EI Q 0 0 d0 BI /W 1 ID b EI Q" now passes the test c16_ei_okb, i.e. lies inside the hypotheses of
+   normalize_preserves_tokens_partial, and a token filter sees the two images the specification sees. *)
 Definition c16_witness_d0 : list N :=
   [66;73;32;47;87;32;49;32;73;68;32;97;32;69;73;32;81;32;48;32;48;32;100;48;32;66;73;32;47;87;32;49;32;73;68;32;98;32;69;73;32;81].
 
-Lemma ei_heuristic_refuted_lemma :
+Lemma ei_heuristic_d0_pinned_lemma :
+  c16_clean c16_witness_d0 = true /\
+  map tok_raw (filter (fun t => ttype_eqb (tok_type t) TT_inline_image) (c16_tokens c16_witness_d0)) = [[97; 32]; [98; 32]] /\
+  c16_sem_images (match c16_sem c16_witness_d0 with Some l => l | None => [] end) = [[97; 32]; [98; 32]].
+Proof. repeat split; vm_compute; reflexivity. Qed.
+
+(* The hypothesis c16_ei_okb remains a real restriction at the lexical level: a word that mixes letters and digits and is
+   not an operator of any PDF version ("a1") among the ten tokens after an inline image still makes findEI reject the
+   image's EI; with a later EI in the stream the inline-image token runs to that one.  Such a stream is outside the
+   property's quantifier (every OPERATOR).  Witness "BI /W 1 ID a EI Q 0 0 a1 BI /W 1 ID b EI Q". *)
+Definition c16_witness_a1 : list N :=
+  [66;73;32;47;87;32;49;32;73;68;32;97;32;69;73;32;81;32;48;32;48;32;97;49;32;66;73;32;47;87;32;49;32;73;68;32;98;32;69;73;32;81].
+
+Lemma ei_heuristic_restrictive_lemma :
   exists c ts, Forall (fun b => b < 256) c /\ ~ In 11 c /\ c16_sem c = Some ts /\ c16_ei_okb c = false /\
     c16_sem_images ts = [[97; 32]; [98; 32]] /\
     map tok_raw (filter (fun t => ttype_eqb (tok_type t) TT_inline_image) (c16_tokens c)) <> c16_sem_images ts.
 Proof.
-  exists c16_witness_d0. eexists. split; [|split; [|split; [vm_compute; reflexivity|split; [vm_compute; reflexivity|split; [vm_compute; reflexivity|vm_compute; discriminate]]]]].
+  exists c16_witness_a1. eexists. split; [|split; [|split; [vm_compute; reflexivity|split; [vm_compute; reflexivity|split; [vm_compute; reflexivity|vm_compute; discriminate]]]]].
   - apply Forall_forall. intros x Hx. apply N.ltb_lt. revert x Hx. apply forallb_forall. vm_compute. reflexivity.
-  - intros H. assert (X : forallb (fun b => negb (b =? 11)) c16_witness_d0 = true) by (vm_compute; reflexivity).
+  - intros H. assert (X : forallb (fun b => negb (b =? 11)) c16_witness_a1 = true) by (vm_compute; reflexivity).
     rewrite forallb_forall in X. specialize (X 11 H). discriminate.
 Qed.
